@@ -109,6 +109,13 @@ claim("C06",
       "OnEmit enqueues only while not stopped and enqueues a clone sharing no attribute storage; bufferExporter sends on its channel only under inputMu while not stopped and closes it only under inputMu after setting stopped (once).",
       _TB + "sync.Mutex/atomic semantics assumed; calls through function values and unknown interface methods are treated as side-effect free; newQueue is a trusted contract. Not decided: channel hand-over to the export goroutine, single-exporter-call enumeration, poll loop.",
       "DESIGN.md 4 C06")
+claim("C01",
+      "Partial, by contracts on the worker and the enqueue side: (1) the batch never holds more than MaxExportBatchSize spans for every MaxExportBatchSize >= 1 - lock invariant of batchMutex, maintained by an owner-thread rely/guarantee argument "
+      "(only processQueue/drainQueue, which run in one goroutine, append; every other critical section only shrinks the batch: checked as a guarantee at each unlock); (2) the exporter is called only with batchMutex held, with the whole non-empty batch, and the batch is emptied in the same critical "
+      "section whether or not the export failed; (3) enqueueDrop/enqueueBlockOnQueueFull: an unsampled span is neither sent nor counted, a sampled one is sent exactly once or (non-blocking mode) counted as dropped exactly once, and the result says which; (4) OnEnd enqueues nothing once stopped is set or without an exporter. "
+      "Known finding (class split with canary): MaxExportBatchSize == 0 exports batches of 1 and, on drain, of any size.",
+      _TB + "sync.Mutex/atomic semantics and channel send/receive pairing assumed; timers, contexts, the exporter and otel.Handle are unknown calls (frames and no-panic of these functions are marked unchecked). NOT decided (see spec/C01.json): delivery by the time ForceFlush/Shutdown returns, nothing after Shutdown, ForceFlush/Shutdown bodies.",
+      "DESIGN.md 4 C01, 10.2")
 _todo = "check not built yet in this session (engine exists; contracts for this property's functions still to be written)"
-for _p in ["C01","C11"]:
+for _p in ["C11"]:
     na(_p, _todo)
